@@ -318,6 +318,33 @@ func ruleIDHandling(c *chk.Ctx) {
 	for _, pkg := range []*ssa.Package{c.M.Pkg, c.M.ChanPkg} {
 		f := pkg.Func("isNull")
 		if f == nil {
+			// by role: an unexported predicate over a byte slice that mentions the token null
+			for _, g := range pkgFuncs(c, pkg) {
+				if g.Parent() != nil || ir.Exported(g) || g.Signature.Recv() != nil || g.Signature.Params().Len() != 1 || g.Signature.Results().Len() != 1 || g.Signature.Results().At(0).Type().String() != "bool" {
+					continue
+				}
+				if _, isSlice := g.Signature.Params().At(0).Type().Underlying().(*types.Slice); !isSlice {
+					continue
+				}
+				mentions := false
+				ir.Instrs(g, func(ins ssa.Instruction) {
+					for _, op := range ins.Operands(nil) {
+						if op != nil && *op != nil {
+							if s, isS := constString(*op); isS && s == "null" {
+								mentions = true
+							}
+							if k, isK := ir.ConstInt(*op); isK && k == 'u' {
+								mentions = true
+							}
+						}
+					}
+				})
+				if mentions {
+					f = g
+				}
+			}
+		}
+		if f == nil {
 			c.Undecided("TABLE.null", nil, pkg.Pkg.Name()+".isNull", 0, "null predicate not found")
 			continue
 		}
@@ -1159,8 +1186,12 @@ func ruleErrCodeAccessors(c *chk.Ctx) {
 			v := ir.ReturnResult(r, 0)
 			isNoErrEdge, truth := false, false
 			for _, cd := range ir.CondsAt(r.Block()) {
-				if _, y, op, ok := ir.Rel(cd); ok && (op == token.EQL || op == token.NEQ) {
-					if k, isC := ir.ConstInt(y); isC && k == noErr {
+				if x, y, op, ok := ir.Rel(cd); ok && (op == token.EQL || op == token.NEQ) {
+					k, isC := ir.ConstInt(y)
+					if !isC {
+						k, isC = ir.ConstInt(x)
+					}
+					if isC && k == noErr {
 						isNoErrEdge, truth = true, op == token.EQL
 					}
 				}
